@@ -12,10 +12,11 @@ m = {
     "setup_cmd": "true",
     "hooks": {
         "guard": "PYCPARSER_VERIF",
-        "enable": "no source hooks: the checks are static analyses that read /repo's working tree and never import it",
+        "enable": "no source hooks exist: the checks are static analyses that read /repo's working tree and never import it; the guard names nothing in the "
+                  "code. source_commits lists the unguarded 'fix:' commits (repairs of genuine defects), which are the only changes made to /repo",
         "baseline_off_cmd": BASE,
         "source_commits": SOURCE_COMMITS,
-        "add_only": True,
+        "add_only": True,     # vacuously: there are no hook patches (the fix: commits listed above do rewrite lines, as repairs must)
     },
     "engines": ENGINES,
     "checks": [],
